@@ -134,3 +134,36 @@ Definition ast_encode_produce_request : prog :=
         [ILetMsgSet (EField (EIdx (EVar 7) 1) "messages") (EIfGe (EVar 5) 2 (EConst 1) (EConst 0))
            [IPack [(Fi, EIdx (EVar 7) 0); (Fi, ELen (EVar 8))];
             IRaw (EVar 8)]]]].
+
+(* _encode_message_set(messages, offset, magic) *)
+Definition ast_encode_message_set : prog :=
+  [IForIdx (EVar 0)
+     [ICond (CEq (EVar 2) 0)
+        [ILetMessage (EVar 4)
+           [IPack [(Fq, EAdd (EIfNone (EVar 1) (EConst 0) (EVar 1)) (EMul (EVar 3) (EIfNone (EVar 1) (EConst 0) (EConst 1)))); (Fi, ELen (EVar 5))];
+            IRaw (EVar 5)]]
+        [ICond (CEq (EVar 2) 1)
+           [ILetMessage (EVar 4)
+              [IPack [(Fq, EAdd (EIfNone (EVar 1) (EConst 0) (EVar 1)) (EMul (EVar 3) (EIfNone (EVar 1) (EConst 0) (EConst 1)))); (Fi, ELen (EVar 5))];
+               IRaw (EVar 5)]]
+           [IRaise NameErr]]]].
+
+(* _encode_message(message) *)
+Definition ast_encode_message : prog :=
+  [ICond (CEq (EField (EVar 0) "magic") 0)
+     [ICrc
+        [IPack [(FB, EField (EVar 0) "magic"); (FB, EField (EVar 0) "attributes")];
+         IIntString (EField (EVar 0) "key");
+         IIntString (EField (EVar 0) "value")]]
+     [ICond (CEq (EField (EVar 0) "magic") 1)
+        [ICond (CIsNone (EField (EVar 0) "timestamp"))
+           [ILetNow
+              [ICrc
+                 [IPack [(FB, EField (EVar 0) "magic"); (FB, EField (EVar 0) "attributes"); (Fq, EVar 1)];
+                  IIntString (EField (EVar 0) "key");
+                  IIntString (EField (EVar 0) "value")]]]
+           [ICrc
+              [IPack [(FB, EField (EVar 0) "magic"); (FB, EField (EVar 0) "attributes"); (Fq, EField (EVar 0) "timestamp")];
+               IIntString (EField (EVar 0) "key");
+               IIntString (EField (EVar 0) "value")]]]
+        [IRaise Protocol]]].
